@@ -89,9 +89,11 @@ Section Field.
   Proof. induction a as [|x a IH]; cbn [app]; rewrite ?Fsum_cons, ?IH; cbn [fsum fold_right]; ring. Qed.
   Lemma Fsum_perm a b : Permutation a b -> Fsum a = Fsum b.
   Proof.
-    induction 1 as [|x l l' _ IH|x y l|l l' l'' _ IH1 _ IH2]; rewrite ?Fsum_cons; try congruence.
+    induction 1 as [|x l l' _ IH|x y l|l l' l'' _ IH1 _ IH2]; rewrite ?Fsum_cons.
     - reflexivity.
+    - now rewrite IH.
     - ring.
+    - congruence.
   Qed.
 
   Definition conn (l : list (option ev)) : list ev :=
@@ -160,8 +162,8 @@ Section Field.
 
   Definition obwf (o : option ev) : Prop := match o with Some e => ebwf e | None => True end.
 
-  Lemma set_pilot_one_spec s o p n o' :
-    obwf o -> set_pilot_one O K T s o p n = Some o' ->
+  Lemma set_pilot_one_spec (s : stn) o p n o' :
+    obwf o -> set_pilot_one K T s o p n = Some o' ->
     match o, o' with
     | None, None => True
     | Some e, Some e' =>
@@ -211,7 +213,7 @@ Section Field.
       unfold col_energy, etot, esum. cbn. repeat split; auto; intros; ring.
     - destruct l as [|o l]; cbn [update_pilots] in Hup; [discriminate|].
       destruct ps as [|p ps]; [discriminate|].
-      destruct (set_pilot_one O K T s o p (hd (o0 O, o0 O) ns)) as [o'|] eqn:E1; [|discriminate].
+      destruct (set_pilot_one K T s o p (hd (o0 O, o0 O) ns)) as [o'|] eqn:E1; [|discriminate].
       destruct (update_pilots O K T net l ps (tl ns)) as [l2|] eqn:E2; cbn [option_map] in Hup; [|discriminate].
       inversion Hup; subst; clear Hup.
       inversion Hb as [|? ? Hbo Hbl]; subst.
@@ -445,7 +447,7 @@ Section Field.
         - destruct l; cbn [update_pilots] in E; [|discriminate]. inversion E; subst. auto.
         - destruct l as [|o l]; cbn [update_pilots] in E; [discriminate|].
           destruct ps as [|p ps]; [discriminate|].
-          destruct (set_pilot_one O K T s o p (hd (o0 O, o0 O) ns)) as [o'|] eqn:E1; [|discriminate].
+          destruct (set_pilot_one K T s o p (hd (o0 O, o0 O) ns)) as [o'|] eqn:E1; [|discriminate].
           destruct (update_pilots O K T net l ps (tl ns)) as [l2|] eqn:E2; cbn [option_map] in E; [|discriminate].
           inversion E; subst. destruct (IH _ _ _ _ E2) as [H1 H2]. cbn. split; [lia|]. rewrite H2. f_equal.
           unfold set_pilot_one in E1. destruct (s_valid s p).
